@@ -21,6 +21,10 @@ def build(case):
     from femio import FEMData, FEMAttribute, FEMElementalAttribute
     ids = np.array([n[0] for n in case['nodes']], dtype=np.int64)
     xyz = np.array([n[1] for n in case['nodes']], dtype=float)
+    off = case.get('offset')
+    if off:
+        # exact: integers far below 2^53
+        xyz = xyz + np.array(off, dtype=float)
     sc = case.get('scale')
     if sc:
         # exact for powers of two; for powers of ten each coordinate is rounded once
@@ -54,27 +58,70 @@ def run_case(case, work):
             res[name] = {'error': type(e).__name__, 'msg': str(e)[:300],
                          'tb': traceback.format_exc()[-600:]}
 
-    if 'surface' in want:
-        def f():
-            fd = build(case)
-            ind, pos = fd.extract_surface()
-            return canon_surface(ind)
-        guard('surface', f)
-    if 'to_surface' in want:
-        def f():
-            fd = build(case)
-            s = fd.to_surface()
-            return {'nodes': s.nodes.ids.astype(np.int64).tolist(),
-                    'node_xyz': [[frac(c) for c in row] for row in s.nodes.data.tolist()],
-                    'elements': {k: {'ids': v.ids.astype(np.int64).tolist(),
-                                     'data': np.asarray(v.data).astype(np.int64).tolist()}
-                                 for k, v in s.elements.items()}}
-        guard('to_surface', f)
-    if 'fistr' in want:
-        def f():
-            fd = build(case)
-            return np.asarray(fd.extract_surface_fistr()).astype(np.int64).tolist()
-        guard('fistr', f)
+    # ---- the views, each on a given object -------------------------------
+    def v_surface(fd):
+        ind, pos = fd.extract_surface()
+        return canon_surface(ind)
+
+    def v_to_surface(fd):
+        s = fd.to_surface()
+        return {'nodes': s.nodes.ids.astype(np.int64).tolist(),
+                'node_xyz': [[frac(c) for c in row] for row in s.nodes.data.tolist()],
+                'elements': {k: {'ids': v.ids.astype(np.int64).tolist(),
+                                 'data': np.asarray(v.data).astype(np.int64).tolist()}
+                             for k, v in s.elements.items()}}
+
+    def v_fistr(fd):
+        return np.asarray(fd.extract_surface_fistr()).astype(np.int64).tolist()
+
+    counter = [0]
+
+    def v_obj(fd):
+        counter[0] += 1
+        path = os.path.join(work, 'c%d_%d.obj' % (case['id'], counter[0]))
+        if os.path.exists(path):
+            os.remove(path)
+        fd.write('obj', path)
+        text = open(path).read()
+        lines = []
+        for ln in text.split('\n'):
+            tok = ln.split()
+            if not tok:
+                continue
+            if tok[0] == 'v':
+                lines.append(['v'] + [frac(float(t)) for t in tok[1:]])
+            elif tok[0] == 'f':
+                lines.append(['f'] + [int(t) for t in tok[1:]])
+            else:
+                lines.append(['?', ln[:80]])
+        from femio import FEMData
+        rd = FEMData.read_files('obj', [path])
+        back = {'nodes': rd.nodes.ids.astype(np.int64).tolist(),
+                'node_xyz': [[frac(c) for c in row] for row in rd.nodes.data.tolist()],
+                'elements': {k: {'ids': v.ids.astype(np.int64).tolist(),
+                                 'data': [[int(x) for x in row] for row in v.data]}
+                             for k, v in rd.elements.items()}}
+        os.remove(path)
+        return {'lines': lines, 'read': back}
+
+    VIEWS = {'surface': v_surface, 'to_surface': v_to_surface, 'fistr': v_fistr, 'obj': v_obj}
+    for name in ('surface', 'to_surface', 'fistr', 'obj'):
+        if name in want:
+            guard(name, lambda name=name: VIEWS[name](build(case)))
+    if 'history' in want:
+        # ONE object, several rounds of views in the given order
+        fd = build(case)
+        rounds = []
+        for ops in case['history']:
+            rr = {}
+            for op in ops:
+                try:
+                    rr[op] = VIEWS[op](fd)
+                except Exception as e:          # noqa
+                    rr[op] = {'error': type(e).__name__, 'msg': str(e)[:300],
+                              'tb': traceback.format_exc()[-600:]}
+            rounds.append(rr)
+        res['history'] = rounds
     if 'volumes' in want:
         def f():
             fd = build(case)
@@ -88,35 +135,6 @@ def run_case(case, work):
             out['_total'] = [frac(x) for x in np.ravel(tot)]
             return out
         guard('volumes', f)
-    if 'obj' in want:
-        def f():
-            fd = build(case)
-            path = os.path.join(work, 'c%d.obj' % case['id'])
-            if os.path.exists(path):
-                os.remove(path)
-            fd.write('obj', path)
-            text = open(path).read()
-            lines = []
-            for ln in text.split('\n'):
-                tok = ln.split()
-                if not tok:
-                    continue
-                if tok[0] == 'v':
-                    lines.append(['v'] + [frac(float(t)) for t in tok[1:]])
-                elif tok[0] == 'f':
-                    lines.append(['f'] + [int(t) for t in tok[1:]])
-                else:
-                    lines.append(['?', ln[:80]])
-            from femio import FEMData
-            rd = FEMData.read_files('obj', [path])
-            back = {'nodes': rd.nodes.ids.astype(np.int64).tolist(),
-                    'node_xyz': [[frac(c) for c in row] for row in rd.nodes.data.tolist()],
-                    'elements': {k: {'ids': v.ids.astype(np.int64).tolist(),
-                                     'data': [[int(x) for x in row] for row in v.data]}
-                                 for k, v in rd.elements.items()}}
-            os.remove(path)
-            return {'lines': lines, 'read': back}
-        guard('obj', f)
     def incidence_of(fd):
         facet, inc, normals = fd.calculate_normal_incidence_matrix()
         coo = inc.tocoo()
@@ -141,7 +159,14 @@ def run_case(case, work):
             mv = case['move']
             fd = build(case)
             first = incidence_of(fd)
-            if mv['kind'] == 'api':
+            if mv['kind'] == 'permute':
+                # query the plain node-cell incidence / adjacency first (memoised per object), then
+                # re-order the connectivity rows in place
+                fd.calculate_incidence_matrix()
+                if mv.get('adjacency'):
+                    fd.calculate_adjacency_matrix_element()
+                fd.elements.data = fd.elements.data[np.array(mv['perm'])].copy()
+            elif mv['kind'] == 'api':
                 fd.nodal_data.reset()
                 ax = mv['axis']
                 fd.rotation(float(ax[0]), float(ax[1]), float(ax[2]),
@@ -153,7 +178,9 @@ def run_case(case, work):
             second = incidence_of(fd)
             moved_xyz = [[frac(c) for c in row] for row in fd.nodes.data.tolist()]
             fresh_case = dict(case, nodes=[[n[0], c] for n, c in zip(case['nodes'], fd.nodes.data.tolist())],
-                              scale=None)
+                              scale=None, offset=None)
+            if mv['kind'] == 'permute':
+                fresh_case['blocks'] = case['moved_blocks']
             fresh = incidence_of(build(fresh_case))
             return {'first': first, 'second': second, 'fresh': fresh, 'moved_xyz': moved_xyz}
         guard('incidence_moved', f)
